@@ -482,6 +482,15 @@ def m_map_method(I, path, args):
     raise Unsupported('map method ' + meth)
 
 
+@R.model(r'^<(std::collections::)?(HashMap|BTreeMap) as (std::ops::)?Index>::index$')
+def m_map_index(I, path, args):
+    m = _map(args[0])
+    i = map_find(I, m, args[1])
+    if i is None:
+        raise Panic('no entry found for key (HashMap index)')
+    return Ref(LV(m.items[i], 1))
+
+
 @R.model(r'^(std::collections::)?(HashSet|BTreeSet)::(insert|remove|contains|len|is_empty|iter|drain|clear|get|take|extend|is_subset|difference|union|intersection)$')
 def m_set_method(I, path, args):
     meth = strip_generics(path).split('::')[-1]
